@@ -54,3 +54,5 @@ func c05load(g *Gen, i int, path string, files map[string]string, names []string
 	}
 	return b.FindTypes()
 }
+
+func c02nresults(s *types.Signature) int { return len(s.Results) }
